@@ -5,6 +5,7 @@ package parser
 
 import (
 	"fmt"
+	"maps"
 	"path/filepath"
 	"slices"
 	"strings"
@@ -668,6 +669,8 @@ func (p *parser) funcDeclaration(startDepth int) ast.Statement {
 			Context: ast.GenericContext{
 				Symbols: p.scope(),
 				Aliases: p.aliases,
+				// the operator overloads visible at the declaration (the slices are never modified in place)
+				Operators: maps.Clone(p.Operators),
 			},
 			Instantiations: make(map[*ast.Module][]*ast.FuncDecl, 8),
 		}
